@@ -535,6 +535,7 @@ func (r *report) writeEvidence() error {
 		"vacuity":                       map[string]any{"cover_queries": len(r.covers), "cover_sat": countStatus(r.covers, "sat"), "census_minimum": r.pd.MinObligs},
 		"notes":                         r.extraNotes,
 		"violating_obligations":         r.violations,
+		"not_under_contract":            r.notUnder,
 		"engine_errors":                 r.engineErr,
 	}
 	if r.selftest != nil {
